@@ -524,9 +524,24 @@ def mfpca_2d_monitor(rep):
 
 
 def pairing_monitor(rep, data, val, fun, s, grid):
-    """Each eigenfunction stays paired with ITS eigenvalue: C (w . phi_k) = lambda_k phi_k (covariance method)."""
+    """Each eigenfunction stays paired with ITS eigenvalue: C (w . phi_k) = lambda_k phi_k (covariance method); and each
+    NumInt score column with ITS eigenfunction: column k is the projection of the centred curves on eigenfunction k, integrated
+    over the sampling points themselves (domains of any length)."""
     from FDApy.misc.utils import _integration_weights
     x = np.asarray(data.argvals["input_dim_0"], float)
+    sc = getattr(api_fit, "scores", None)
+    Xv = np.asarray(data.values, float)
+    if sc is not None and sc.shape == (Xv.shape[0], len(val)) and np.all(np.isfinite(fun)):
+        proj = np.array([np.trapz((Xv - Xv.mean(axis=0)) * fun[k][None, :], x, axis=1) for k in range(len(val))]).T
+        ps = max(1e-300, float(np.max(np.abs(proj))))
+        dev = float(np.max(np.abs(np.abs(proj) - np.abs(sc))))
+        if dev > 1e-6 * ps:
+            rep.violation(f"UFPCA(covariance) n_components={s}: the NumInt score columns are not the projections of the centred curves on "
+                          f"the eigenfunctions paired with them, integrated over the sampling points (max deviation {dev:.3g}, "
+                          f"domain length {float(np.ptp(x)):g})",
+                          {"level": "api", "grid": grid, "sel": s, "eigenvalues": [float(v) for v in val],
+                           "data_values": C.hexf(Xv), "grid_points": C.hexf(x)})
+            return
     w = _integration_weights(x, method="trapz")
     with warnings.catch_warnings():
         warnings.simplefilter("ignore")
